@@ -47,6 +47,9 @@ FIXED = [
     ('C07', '0fbf4a3', '*background_*dtype:float<64',
      'SourceCatalog kept a float32/float16 background in its narrow dtype: background_sum/background_mean accumulated '
      'in float32/float16, background_centroid rounded to float32, float16 background raised RuntimeError in map_coordinates'),
+    ('C07', 'd3130d4', 'segment_flux|localbkg:*detcat*',
+     'SourceCatalog.segment_flux with localbkg_width > 0 and a detection_cat subtracted local_background times the '
+     'DETECTION catalog area: wrong when the measurement image has non-finite pixels in a segment that the detection image lacks'),
     ('C07', '93227df', '*covar*',
      'semimajor_sigma/orientation/... NaN for thin (collinear-pixel) sources whose covariance determinant rounds to -1e-17'),
     ('C08', '2cb2f2c', '*extra*',
